@@ -137,6 +137,9 @@ inductive Ev17 where
   /-- over a whole run whose intermediate stores were not observed: the active points at the end
       are those of the beginning plus the chosen candidates of all steps -/
   | summary (name : String) (activeB activeA added : List Nat)
+  /-- the implementation refused the configuration (at construction or when `trigger_rar` is
+      traced); `legal`: the configuration is within the documented domain -/
+  | rejected (legal : Bool)
 deriving Inhabited
 
 def firstSome : List (Option String) → Option String
@@ -157,6 +160,7 @@ def evCheck : Ev17 → Option String
   | .stores sides => firstSome (sides.map (fun (nm, s) => (sideCheck s).map (· ++ "(" ++ nm ++ ")")))
   | .summary nm b a added =>
     if a.isPerm (b ++ added) then none else some ("active-points-not-initial-plus-chosen(" ++ nm ++ ")")
+  | .rejected legal => if legal then some "valid-configuration-rejected" else none
 
 def holdsC17 (evs : List Ev17) : Option String := firstSome (evs.map evCheck)
 
